@@ -10,8 +10,9 @@ Open Scope N_scope.
 (* parse_master_sql (render_ddl tbl) = constraints_of tbl: for EVERY text made of arbitrary segments (header,
    column specifications, other clauses, separators) and rendered UNIQUE clauses, the regex parser of
    get_unique_constraints returns exactly the created constraints - names and column lists - provided the
-   boolean guard holds: names/columns contain no double quote / newline (columns: no ")"), names left bare
-   consist of \w characters (columns: [a-z0-9_]), and no match starts inside a segment *)
+   boolean guard holds: names contain no newline and no double quote followed by white space, names left bare
+   consist of [\w$]; columns contain no double quote / newline / ")" and bare ones consist of [a-z0-9_]; no match
+   starts inside a segment *)
 Theorem c15_ddl_parse_roundtrip : forall uni p, prep_dq p = true ->
   forall ps text, wf_parts uni p ps = true -> render_parts p ps = Ok text ->
   parse_uqs uni text = uniques_of ps.
@@ -19,7 +20,9 @@ Proof. exact ddl_parse_roundtrip. Qed.
 Print Assumptions c15_ddl_parse_roundtrip.
 Example c15_wf_satisfiable : prep_dq demo_prep = true /\
   wf_parts no_uni demo_prep (demo_parts (Some [117; 113; 32; 49]) [97; 32; 98]) = true /\
-  wf_parts no_uni demo_prep (demo_parts (Some [117; 113]) [120]) = true.
+  wf_parts no_uni demo_prep (demo_parts (Some [117; 113]) [120]) = true /\
+  wf_parts no_uni demo_prep (demo_parts (Some [97; 34; 98]) [120]) = true /\
+  wf_parts no_uni demo_prep (demo_parts (Some [98; 36]) [120]) = true.
 Proof. exact wf_demo. Qed.
 
 (* ... and get_unique_constraints (the join with SQLite's sqlite_autoindex signatures) reports them all *)
@@ -49,12 +52,15 @@ Proof. exact named_rendered. Qed.
 Print Assumptions c15_constraint_name_group.
 
 (* REFUTED outside the guard (each reproduced on live SQLite on every run) *)
-Theorem c15_uq_name_dquote_refuted : demo_reflect (Some [97; 34; 98]) [120] = Some [(Some [97; 34; 34; 98], [[120]])].
-Proof. exact uq_name_dquote_refuted. Qed.
+(* repaired (/repo ae21374, 24f65cc): names containing a double quote, bare names containing $ *)
+Example c15_uq_name_dquote_roundtrip : demo_reflect (Some [97; 34; 98]) [120] = Some [(Some [97; 34; 98], [[120]])].
+Proof. exact uq_name_dquote_roundtrip. Qed.
+Example c15_uq_name_dollar_roundtrip : demo_reflect (Some [98; 36]) [120] = Some [(Some [98; 36], [[120]])].
+Proof. exact uq_name_dollar_roundtrip. Qed.
+Theorem c15_uq_name_dquote_space_refuted : demo_reflect (Some evil_name) [120] <> Some [(Some evil_name, [[120]])].
+Proof. exact uq_name_dquote_space_refuted. Qed.
 Theorem c15_uq_name_newline_refuted : demo_reflect (Some [97; 10; 98]) [120] = Some [(None, [[120]])].
 Proof. exact uq_name_newline_refuted. Qed.
-Theorem c15_uq_name_dollar_refuted : demo_reflect (Some [98; 36]) [120] = Some [(None, [[120]])].
-Proof. exact uq_name_dollar_refuted. Qed.
 Theorem c15_uq_col_dollar_refuted : demo_reflect None [98; 36] = Some [(None, [[98]])].
 Proof. exact uq_col_dollar_refuted. Qed.
 Theorem c15_uq_col_dquote_refuted : demo_reflect None [97; 34; 98] = Some [(None, [[97]; [98]])].
@@ -67,7 +73,7 @@ Theorem c15_uq_col_dropped_refuted :
   reflect_uniques no_uni [[[98; 36]]] []
     (match render_parts demo_prep (demo_parts None [98; 36]) with Ok t => t | RaiseIndexError => [] end) = [].
 Proof. exact uq_col_dropped_refuted. Qed.
-Print Assumptions c15_uq_name_dquote_refuted.
+Print Assumptions c15_uq_name_newline_refuted.
 Print Assumptions c15_uq_col_dropped_refuted.
 
 (* type_affinity_stable: reflect -> re-create -> reflect is a fixed point: the type the dialect reflects,
@@ -121,3 +127,7 @@ Theorem c15_unqualified_index_query_refuted :
   reflect_where true demo_masters (Some [97; 117; 120]) [117; 113] = Some [120; 32; 62; 32; 48] /\
   reflect_where false demo_masters (Some [97; 117; 120]) [117; 113] = None.
 Proof. exact unqualified_index_query_refuted. Qed.
+Example c15_index_pred_newline_roundtrip :
+  pred_search (render_index false [105] [116] [[120]] (Some [34; 97; 10; 98; 34; 32; 62; 32; 48])) =
+  Some [34; 97; 10; 98; 34; 32; 62; 32; 48].
+Proof. exact index_pred_newline_roundtrip. Qed.
